@@ -68,7 +68,7 @@ def check(prop, tier, seed, replay):
                                  running=rnd.random() < 0.5, replace=False, reps=4 if tier == "quick" else 8, procs=[1, 2, 16]))
             # the replace flow: running is not preloaded, what the kept entries refer to is loaded on demand during validation
             for k, s in enumerate(rnd.sample([x for x in scen if "peer" in x["feats"]], 8 if tier == "quick" else 40)):
-                behs.append(dict(id="rp%d" % k, n=rnd.choice([16, 40]), feats=sorted(set(s["feats"]) - {"gcheck", "dcheck", "gname"}), defects=sorted(set(s["defects"]) | {"range"}),
+                behs.append(dict(id="rp%d" % k, n=rnd.choice([16, 40]), feats=sorted(set(s["feats"]) - {"gcheck", "dcheck", "gname"}), defects=sorted((set(s["defects"]) - {"dangling_peer"}) | {"range"} | ({"dangling_tref"} if k % 2 else set())),
                                  running=False, replace=True, reps=4 if tier == "quick" else 8, procs=[1, 2, 16]))
             log("ValConc.tla: %s; %d scenarios enumerated, %d selected" % ({k: v["holds"] for k, v in design.items()}, len(scen), len(behs)))
         else:
